@@ -336,3 +336,12 @@ package channel
 //@   loop 1 invariant rangeindex < len(lines) && len(cleanLines) == len(lines) && lines === splitB(old(b), "\n") && b == old(b)
 //@   loop 1 invariant #every-line-loses-its-trailing-spaces forall k int :: 0 <= k && k <= rangeindex ==> cleanLines[k] == trimRightSet(lines[k], " ")
 //@   at return assert #lines-trimmed-then-prompt-stripped-then-surrounding-returns-and-newlines lines === splitB(old(b), "\n") && len(cleanLines) == len(lines) && (forall k int :: 0 <= k && k < len(lines) ==> cleanLines[k] == trimRightSet(lines[k], " ")) && result === trimSet(trimSet((strip ? reReplaceAll(c.PromptPattern, joinB(cleanLines, "\n"), "") : joinB(cleanLines, "\n")), c.ReturnChar), "\n")
+
+// ---- C19: the channel constructor: documented defaults, then every option in order ------------------------------------------
+//@ func NewChannel [C19]
+//@   loop 1 invariant -1 <= rangeindex && rangeindex < len(options) && isnew(c) && c != nil
+//@   loop 1 invariant #every-option-applied-in-order optlog == old(optlog) ++ applied(options, box("*channel.Channel", c), rangeindex + 1)
+//@   loop 1 invariant #defaults-before-the-first-option rangeindex == -1 ==> c.l == l && c.t == t && c.TimeoutOps == 60 * 1000000000 && c.ReadDelay == 250 * 1000 && c.PromptSearchDepth == 1000 && c.ReturnChar == "\n" && c.PromptPattern == promptPattern && c.UsernamePattern == authPatternsInstance.username && c.PasswordPattern == authPatternsInstance.password && c.PassphrasePattern == authPatternsInstance.passphrase && RI(c.Q) && !c.AuthBypass && c.ChannelLog == nil
+//@   ensures #nil-on-error result.1 != nil ==> result.0 == nil
+//@   ensures #every-option-applied-in-order result.1 == nil ==> optlog == old(optlog) ++ applied(options, box("*channel.Channel", result.0), len(options))
+//@   ensures #defaults result.1 == nil && len(options) == 0 ==> result.0.TimeoutOps == 60 * 1000000000 && result.0.ReadDelay == 250 * 1000 && result.0.PromptSearchDepth == 1000 && result.0.ReturnChar == "\n" && RI(result.0.Q) && result.0.t == t
